@@ -4,7 +4,7 @@ from fractions import Fraction as Fr
 
 import fol
 import streams
-from common import sub_seed
+from common import sub_seed, size
 
 THEOREMS = ["LNN.C14_get_missing",
             "LNN.C14_query_pure",
@@ -66,7 +66,7 @@ def judge_fol(rec):
 
 
 def run(rep, tier, seed):
-    n = 120 if tier == "quick" else 2500
+    n = size(tier, 120, 2500)
     progs = [fol.gen_store_program(random.Random(sub_seed(seed, "store14", k)), malformed_p=0.1) for k in range(n)]
     recs, first_dis = streams.run_fol_stream(rep, "store", progs, None, fn="run_store_program")
     for r in recs:
@@ -81,7 +81,7 @@ def run(rep, tier, seed):
                 rep.violation("world-default", bad, {"program": streams.ser(r["prog"]), "failure": bad, "protocol": r["lines"], "impl": r["impl"]})
                 break
     # rows created by joins / propagation / downward steps
-    m = 120 if tier == "quick" else 2500
+    m = size(tier, 120, 2500)
     fprogs = [streams.gen_fol_program(seed + 17, k, quant=False) for k in range(m)]
     for p in fprogs:          # queries of absent groundings interleaved with inference
         rng = random.Random(sub_seed(seed, "c14q", len(p["ops"]), len(p["facts"])))
